@@ -20,12 +20,22 @@ func H_C12_rc4_prga() {
 	copy(c.s[:], vBytes("S", 256))
 	c.i, c.j = vU8("i"), vU8("j")
 	rs, ri, rj := c.s, c.i, c.j
-	src := vBytes("src", n)
-	dst := make([]byte, n)
+	// the source is cut from a larger buffer and the destination may be longer than the source (a reused output buffer):
+	// exactly len(src) bytes are consumed and produced
+	extra := vParam("extra")
+	backing := vBytes("src", n+extra)
+	src := backing[:n]
+	dst := make([]byte, n+extra)
+	for k := n; k < n+extra; k++ {
+		dst[k] = 0xEE
+	}
 	c.XORKeyStream(dst, src)
 	for k := 0; k < n; k++ {
 		ks := refStep(&rs, &ri, &rj)
 		vCheck(dst[k] == src[k]^ks, "rc4/prga/output")
+	}
+	for k := n; k < n+extra; k++ {
+		vCheck(dst[k] == 0xEE, "rc4/prga/destination-beyond-len-src-untouched")
 	}
 	vCheck(c.i == ri, "rc4/prga/post-i")
 	vCheck(c.j == rj, "rc4/prga/post-j")
